@@ -257,5 +257,4 @@ func summariseModel(m string) string {
 	return strings.Join(out, "\n")
 }
 
-
 var _ = types.Typ
